@@ -153,6 +153,7 @@ func buildFileModel(p *Prog) *fileModel {
 			}
 		}
 		visit(mk, 2)
+		m.verifySuffixTable(mk)
 		if len(m.suffixFlag) == 0 {
 			m.problem("could not extract the suffix->flag table from makeInfos")
 		}
@@ -211,6 +212,192 @@ func (m *fileModel) extractSuffixTable(fn *ssa.Function) {
 			m.ignored[s] = true
 		}
 	}
+}
+
+// verifySuffixTable re-derives the fate of every suffix the table knows by walking makeInfos (and the private
+// helpers that receive the suffix) with the suffix fixed to that constant: comparisons with it are decided, everything
+// else is followed both ways. A suffix that reaches a fatal sink is "unknown file"; one that sets a flag is known
+// under that flag; one that does neither is ignored. This is what tells `a || b` from `a && b` between two tests.
+func (m *fileModel) verifySuffixTable(mk *ssa.Function) {
+	universe := map[string]bool{}
+	for s := range m.suffixFlag {
+		universe[s] = true
+	}
+	for s := range m.ignored {
+		universe[s] = true
+	}
+	type outcome struct {
+		flag  string
+		fatal bool
+		ret   *bool // the constant boolean every reached return of a helper hands back for this suffix (nil: none or mixed)
+	}
+	var walkFn func(fn *ssa.Function, start *ssa.BasicBlock, sv ssa.Value, s string, depth int) outcome
+	walkFn = func(fn *ssa.Function, start *ssa.BasicBlock, sv ssa.Value, s string, depth int) outcome {
+		var out outcome
+		seen := map[*ssa.BasicBlock]bool{}
+		known := map[ssa.Value]bool{} // results of helper calls that are constant for this suffix
+		rets, mixed := 0, false
+		var visit func(b *ssa.BasicBlock)
+		visit = func(b *ssa.BasicBlock) {
+			if seen[b] {
+				return
+			}
+			seen[b] = true
+			for _, in := range b.Instrs {
+				if ret, ok := in.(*ssa.Return); ok && len(ret.Results) > 0 {
+					if v, isB := ConstBool(ret.Results[len(ret.Results)-1]); isB {
+						if rets > 0 && out.ret != nil && *out.ret != v {
+							mixed = true
+						}
+						vv := v
+						out.ret = &vv
+						rets++
+					} else {
+						mixed = true
+					}
+				}
+				if st, ok := in.(*ssa.Store); ok {
+					if typ, field, _, ok := FieldOf(st.Addr); ok && typ == "fracmanager.fracInfo" {
+						if v, isB := ConstBool(st.Val); isB && v && strings.HasPrefix(field, "has") {
+							out.flag = field
+						}
+					}
+				}
+				if IsFatalInstr(in) {
+					out.fatal = true
+					return
+				}
+				if cl, ok := in.(ssa.CallInstruction); ok && depth > 0 {
+					if h := StaticCallee(cl); h != nil && h.Blocks != nil && PkgOf(h) == "fracmanager" {
+						for i, a := range cl.Common().Args {
+							if a == sv && i < len(h.Params) {
+								o := walkFn(h, h.Blocks[0], h.Params[i], s, depth-1)
+								if o.flag != "" {
+									out.flag = o.flag
+								}
+								if o.ret != nil {
+									if v, isV := in.(ssa.Value); isV {
+										known[v] = *o.ret
+									}
+								}
+								if o.fatal {
+									out.fatal = true
+									return
+								}
+							}
+						}
+					}
+				}
+			}
+			if ifi, ok := b.Instrs[len(b.Instrs)-1].(*ssa.If); ok {
+				// a test of what a helper answered for this suffix (`if known := info.markFile(suffix); !known`)
+				cond, neg := ifi.Cond, false
+				if u, isNot := cond.(*ssa.UnOp); isNot && u.Op == token.NOT {
+					cond, neg = u.X, true
+				}
+				if v, isKnown := known[cond]; isKnown {
+					if v != neg {
+						visit(b.Succs[0])
+					} else {
+						visit(b.Succs[1])
+					}
+					return
+				}
+				if bo, ok := ifi.Cond.(*ssa.BinOp); ok && (bo.Op == token.EQL || bo.Op == token.NEQ) {
+					var k string
+					var isK bool
+					if bo.X == sv {
+						k, isK = ConstString(bo.Y)
+					} else if bo.Y == sv {
+						k, isK = ConstString(bo.X)
+					}
+					if isK {
+						truth := (k == s) == (bo.Op == token.EQL)
+						if truth {
+							visit(b.Succs[0])
+						} else {
+							visit(b.Succs[1])
+						}
+						return
+					}
+				}
+			}
+			for _, succ := range b.Succs {
+				if succ == start {
+					continue // next file
+				}
+				visit(succ)
+			}
+		}
+		visit(start)
+		if mixed {
+			out.ret = nil
+		}
+		return out
+	}
+	// the suffix value and the block it is produced in
+	var sv ssa.Value
+	for _, b := range mk.Blocks {
+		for _, in := range b.Instrs {
+			if bo, ok := in.(*ssa.BinOp); ok && bo.Op == token.EQL {
+				if k, isK := ConstString(bo.Y); isK && universe[k] && sv == nil {
+					sv = bo.X
+				}
+			}
+		}
+	}
+	start := mk.Blocks[0]
+	if sv != nil {
+		if in, ok := sv.(ssa.Instruction); ok {
+			start = in.Block()
+		}
+	} else {
+		// the comparisons sit in a helper: the suffix is the argument makeInfos hands over; start where it is produced
+		for _, call := range CallsIn(mk, nil) {
+			if h := StaticCallee(call); h != nil && PkgOf(h) == "fracmanager" && h.Blocks != nil {
+				for _, a := range call.Common().Args {
+					if e, ok := a.(*ssa.Extract); ok && TypeStr(e.Type()) == "string" && sv == nil {
+						if hasSuffixCompare(h, universe) {
+							sv = e
+							start = e.Block()
+						}
+					}
+				}
+			}
+		}
+	}
+	if sv == nil {
+		return
+	}
+	for s := range universe {
+		o := walkFn(mk, start, sv, s, 2)
+		delete(m.suffixFlag, s)
+		delete(m.ignored, s)
+		switch {
+		case o.fatal:
+			// unknown file
+		case o.flag != "":
+			m.suffixFlag[s] = o.flag
+		default:
+			m.ignored[s] = true
+		}
+	}
+}
+
+func hasSuffixCompare(fn *ssa.Function, universe map[string]bool) bool {
+	for _, b := range fn.Blocks {
+		for _, in := range b.Instrs {
+			if bo, ok := in.(*ssa.BinOp); ok && bo.Op == token.EQL {
+				if k, isK := ConstString(bo.Y); isK && universe[k] {
+					return true
+				}
+				if k, isK := ConstString(bo.X); isK && universe[k] {
+					return true
+				}
+			}
+		}
+	}
+	return false
 }
 
 func (m *fileModel) flagsOf(fs FileSet) map[string]bool {
